@@ -4,6 +4,8 @@ From Pi2 Require Import ML.Syntax ML.Subst Lib.Term.
 Import ListNotations.
 Open Scope N_scope.
 
+Module PM := Pi2.PTerm.Model.
+
 (** * pattern equality *)
 Lemma list_eqb_refl : forall l, list_eqb l l = true.
 Proof. induction l as [|x l IH]; cbn; [reflexivity|]. now rewrite N.eqb_refl, IH. Qed.
